@@ -189,6 +189,26 @@ def build_traces(path, tier, seed):
                      "colb": enc_seq(colb), "colncyc": enc_seq(cn[-1]), "colamp": enc_seq(ca[-1])})
         meta[tid] = {"kind": "pl", "n": n, "b": b, "cut_off": cut, "a_ref": aref, "n_cyc": namp, "alpha": alpha, "ncyc_final": float(ncyc[-1]),
                      "amp_final": float(amp[-1])}
+    # one record longer than 2^16 samples (series may be accumulated in blocks): the laws between results -- the definition itself is
+    # validated on the shorter records, a full evaluation of this one by TLC takes minutes
+    for j in range(1 if tier == "quick" else 3):
+        n = 66000 + int(rng.integers(0, 3000))
+        x = rand_series(rng, n) * float(10.0 ** rng.uniform(-2, 2))
+        b = float([0.5, 0.3, 0.06][j % 3])
+        aref = float(np.max(np.abs(x)) * rng.uniform(0.2, 1.5))
+        namp = 15.0
+        ncyc = col0(im.calc_n_cyc_array_w_power_law(x, aref, b, cut_off=0.0), n)
+        amp = col0(im.calc_cyc_amp_array_w_power_law(x, namp, b), n)
+        ainv = col0(im.calc_cyc_amp_array_w_power_law(x, float(ncyc[-1]), b), n)[-1]
+        alpha = float(rng.choice([-3.0, 0.1, 7.0]))
+        amp_scaled = col0(im.calc_cyc_amp_array_w_power_law(x * alpha, namp, b), n)[-1]
+        a2 = float(2.0 ** rng.integers(-8, 9))
+        ncyc_joint = col0(im.calc_n_cyc_array_w_power_law(x * a2, aref * a2, b, cut_off=0.0), n)[-1]
+        tid += 1
+        recs.append({"tid": tid, "kind": "plrel", "aref": enc(aref), "alpha": enc(alpha), "amp_last": enc(amp[-1]), "amp_scaled": enc(amp_scaled),
+                     "ncyc_last": enc(ncyc[-1]), "ncyc_joint": enc(ncyc_joint), "ainv": enc(ainv), "n": n, "len_ok": bool(len(ncyc) == n and len(amp) == n),
+                     "amp_dec": enc_seq(np.concatenate([amp[::97], amp[-1:]])), "ncyc_dec": enc_seq(np.concatenate([ncyc[::97], ncyc[-1:]]))})
+        meta[tid] = {"kind": "plrel", "n": n, "b": b, "a_ref": aref, "note": "long record: laws between results (scaling, joint scaling, inverse at cut_off = 0, monotone on every 97th sample)"}
     write_ndjson(path, recs)
     return meta
 
